@@ -60,14 +60,17 @@ def main():
     with ThreadPoolExecutor(4) as ex:
         for name, res in ex.map(one, names):
             out[name] = res
-            print(name, "DETECTED" if res.get("detected") else ("does not apply" if not res["applies"] else f"MISSED exit={res.get('exit')}"), flush=True)
+            stale = res["applies"] and not res.get("demo_fails_with_change") and not res.get("detected")
+            res["stale"] = bool(stale)  # a later "fix:" commit made the change harmless for its own demonstration: no violation left to detect
+            print(name, "DETECTED" if res.get("detected") else ("does not apply" if not res["applies"] else ("STALE (its demo passes on the current tree)" if stale else f"MISSED exit={res.get('exit')}")), flush=True)
     shutil.rmtree(SCRATCH, ignore_errors=True)
     path = os.path.join(HERE, "notes", "seeded_regression.json")
     old = json.load(open(path)) if os.path.exists(path) and sys.argv[1:] else {}
     old.update(out)
     json.dump(old, open(path, "w"), indent=1)
     n = sum(1 for r in old.values() if r.get("detected"))
-    print(f"{n}/{len(old)} detected; not applying: {[k for k, r in old.items() if not r['applies']]}; missed: {[k for k, r in old.items() if r['applies'] and not r.get('detected')]}")
+    print(f"{n}/{len(old)} detected; not applying: {[k for k, r in old.items() if not r['applies']]}; stale: {[k for k, r in old.items() if r.get('stale')]}; "
+          f"missed: {[k for k, r in old.items() if r['applies'] and not r.get('detected') and not r.get('stale')]}")
 
 
 if __name__ == "__main__":
